@@ -1,6 +1,6 @@
 /-
   C16 — property theorems (and non-vacuity examples) ONLY.  Helper lemmas: `Lemmas.lean`,
-  `Columns.lean`, `Ops.lean`, `Refine.lean`, `Steps.lean`, `ReadOnly.lean`, `RoSteps.lean`, `Lifetime.lean`, `Builtins.lean`.
+  `Columns.lean`, `Ops.lean`, `Refine.lean`, `Steps.lean`, `ReadOnly.lean`, `RoSteps.lean`, `Lifetime.lean`, `Builtins.lean`, `Sim.lean`.
 
   Property text: "For every history of assignments, temporary assignments, function calls and
   returns, local declarations, exports, read-only marks and unsets, looking up a variable returns
@@ -14,7 +14,8 @@
   former into the latter.  All theorems are for every normalised set / every history, any number of
   contexts and names.
 -/
-import YashModel.Variable.Builtins
+import YashModel.Variable.Sim
+import YashModel.Variable.Observe
 namespace YashModel.Variable
 
 /-! ### the normal form is an invariant -/
@@ -343,6 +344,151 @@ theorem function_global_assignment_persists (s : VariableSet) (h : Norm s) (as :
   obtain ⟨u, hu, hv⟩ := spec_function_global_persists (abs s) (baseReg_abs h) as ps n v loc
   exact ⟨u, by rw [get_abs hN, ha]; exact hu, hv⟩
 
+/-! ### end to end: what the driver prints for the model is what it prints for the Spec -/
+
+/-- every component of the observation (results, `get`, `get_scoped`, `get_scalar`, `iter` per
+    scope, environment, positional parameters) is computed identically from the Rust model and from
+    the stack of maps -/
+theorem observe_refines (s : VariableSet) (h : Norm s) (r : Res) (names : List Name) :
+    observeM s r names = observeS (abs s) r names := by
+  unfold observeM observeS
+  have e1 : s.getScalar = (abs s).getScalar := funext fun n => getScalar_refines s h n
+  have e2 : s.get = lookup (abs s) := funext fun n => get_abs h n
+  have e3 : s.getScoped = (abs s).getScoped := funext fun n => funext fun sc => getScoped_abs h n sc
+  have e4 : (fun sc => s.iter sc names) = fun sc => (abs s).iter sc names :=
+    funext fun sc => iter_refines s h sc names
+  rw [e1, e2, e3, e4, env_refines s h, positionalParams_abs]
+
+/-- ★ end to end, API leg: for every operation history of the case language (any length, any
+    names, `extend_env` included) the driver's model column and Spec column are the same text — so
+    `impl = model` on a case is `impl = stack of maps` on that case -/
+theorem history_trace_refines (names : List Name) (items : List (Op ⊕ (Name × String))) :
+    (historyGo names VariableSet.new SSet.new items [] []).1 =
+    (historyGo names VariableSet.new SSet.new items [] []).2 := by
+  have h0 : abs VariableSet.new = SSet.new := by simp [abs, VariableSet.new, absRev, SSet.new, cellAt]
+  have : ∀ (items : List (Op ⊕ (Name × String))) (s : VariableSet) (acc : List String), Norm s →
+      (historyGo names s (abs s) items acc acc).1 = (historyGo names s (abs s) items acc acc).2 := by
+    intro items
+    induction items with
+    | nil => intro s acc _; rfl
+    | cons it rest ih =>
+      intro s acc hs
+      cases it with
+      | inl op =>
+        have h1 := step_abs hs op
+        simp only [historyGo]
+        rw [← h1.1, ← h1.2.1, ← observe_refines _ h1.2.2]
+        exact ih _ _ h1.2.2
+      | inr p =>
+        obtain ⟨n, v⟩ := p
+        have h1 := extendEnv_refines [(n, v)] s hs
+        simp only [VariableSet.extendEnv, SSet.extendEnv] at h1
+        simp only [historyGo]
+        rw [← h1.1, ← observe_refines _ h1.2]
+        exact ih _ _ h1.2
+  rw [← h0]
+  exact this items _ _ norm_init
+
+/-- the Rust model and the Spec, as the script interpreter sees them, are in simulation -/
+theorem simM : Sim (fun (s : VariableSet) (X : SSet) => Norm s ∧ abs s = X) ifaceM ifaceS where
+  step := by
+    rintro s X op ⟨hN, rfl⟩
+    exact ⟨⟨(step_abs hN op).2.2, (step_abs hN op).1⟩, (step_abs hN op).2.1⟩
+  get := by rintro s X n ⟨hN, rfl⟩; exact get_abs hN n
+  getIn := by rintro s X n sc ⟨hN, rfl⟩; exact getScoped_abs hN n sc
+  env := by rintro s X ns ⟨hN, rfl⟩; exact env_refines s hN ns
+  params := by rintro s X ⟨_, rfl⟩; exact positionalParams_abs s
+
+/-- ★ end to end, script leg: for every program of the statement language (any functions, any
+    nesting, any fuel) the interpreter prints the same lines and ends the same way on the Rust
+    model as on the stack of maps, and the final states correspond -/
+theorem script_trace_refines (funs : List (String × List Stmt)) (fuel : Nat) (stmts : List Stmt) :
+    (execStmts ifaceM funs fuel VariableSet.new stmts []).2 = (execStmts ifaceS funs fuel SSet.new stmts []).2 ∧
+    abs (execStmts ifaceM funs fuel VariableSet.new stmts []).1 = (execStmts ifaceS funs fuel SSet.new stmts []).1 := by
+  have h0 : abs VariableSet.new = SSet.new := by simp [abs, VariableSet.new, absRev, SSet.new, cellAt]
+  have := execStmts_sim simM funs fuel VariableSet.new SSet.new stmts [] ⟨norm_init, h0⟩
+  exact ⟨this.2, this.1.2⟩
+
+/-! ### the Spec's own functions meet their declarative description -/
+
+/-- `lookup` is "the topmost context that defines the name": it returns `v` iff some context holds
+    `v` for the name and no context above it defines the name -/
+theorem lookup_spec (X : SSet) (n : Name) (v : Variable) :
+    lookup X n = some v ↔
+      ∃ (i : Nat) (c : SCtx), X[i]? = some c ∧ c.vars n = some v ∧
+        ∀ (j : Nat) (d : SCtx), j < i → X[j]? = some d → d.vars n = none := by
+  induction X with
+  | nil => simp [lookup]
+  | cons c X ih =>
+    simp only [lookup]
+    cases hc : c.vars n with
+    | some w =>
+      constructor
+      · intro h; cases h
+        exact ⟨0, c, rfl, hc, fun j d hj => by omega⟩
+      · rintro ⟨i, d, hi, hv, hab⟩
+        cases i with
+        | zero => simp at hi; subst hi; rw [hc] at hv; exact hv
+        | succ i => have := hab 0 c (by omega) rfl; rw [hc] at this; cases this
+    | none =>
+      rw [ih]
+      constructor
+      · rintro ⟨i, d, hi, hv, hab⟩
+        refine ⟨i + 1, d, by simpa using hi, hv, ?_⟩
+        intro j e hj he
+        cases j with
+        | zero => simp at he; subst he; exact hc
+        | succ j => exact hab j e (by omega) (by simpa using he)
+      · rintro ⟨i, d, hi, hv, hab⟩
+        cases i with
+        | zero => simp at hi; subst hi; rw [hc] at hv; cases hv
+        | succ i =>
+          exact ⟨i, d, by simpa using hi, hv, fun j e hj he => hab (j + 1) e (by omega) (by simpa using he)⟩
+
+/-- `eraseTop n k` removes the name from exactly the first `k` contexts and nothing else -/
+theorem eraseTop_spec (n : Name) (k : Nat) (X : SSet) (i : Nat) (c : SCtx) (hi : X[i]? = some c) :
+    ∃ d, (eraseTop n k X)[i]? = some d ∧ d.kind = c.kind ∧
+      ∀ m, d.vars m = if m = n ∧ i < k then none else c.vars m := by
+  induction X generalizing k i with
+  | nil => simp at hi
+  | cons e X ih =>
+    cases k with
+    | zero => exact ⟨c, by simpa [eraseTop] using hi, rfl, fun m => by simp⟩
+    | succ k =>
+      cases i with
+      | zero =>
+        simp at hi; subst hi
+        exact ⟨e.set n none, by simp [eraseTop], rfl, fun m => by by_cases hm : m = n <;> simp [SCtx.set, hm]⟩
+      | succ i =>
+        obtain ⟨d, hd, hk, hv⟩ := ih k i (by simpa using hi)
+        exact ⟨d, by simpa [eraseTop] using hd, hk, fun m => by rw [hv m]; simp⟩
+
+/-- ★ a local declared in a function (`typeset NAME`, i.e. `get_or_new(NAME, Local)`) is a fresh
+    variable — no value, not exported, not read-only — whatever temporary assignments the call
+    carried and whatever the outer contexts hold; the temporary variable stays where it is and is
+    visible again once the local's context is popped.  (The round-1 seeded change re-homed the
+    temporary into the local.) -/
+theorem local_declaration_is_fresh (s : VariableSet) (h : Norm s) (as : List (Name × Value))
+    (ps : List String) (n : Name) :
+    let inside := s.run (enterFunction as ps)
+    (inside.step (.getOrNew n .loc)).1.get n = some {} ∧
+    ((inside.step (.getOrNew n .loc)).1.step .pop).1.get n = (inside.step .pop).1.get n := by
+  intro inside
+  obtain ⟨ha, hN⟩ := run_abs_from h (enterFunction as ps)
+  obtain ⟨cV, hin, hk, _⟩ := spec_enter_function (abs s) as ps
+  have habs : abs inside = ⟨.regular ps, fun _ => none⟩ :: cV :: abs s := by rw [ha]; exact hin
+  have h1 := step_abs hN (.getOrNew n .loc)
+  have hne : abs s ≠ [] := abs_ne_nil h
+  have hstep : ((abs inside).step (.getOrNew n .loc)).1
+      = (⟨.regular ps, fun _ => none⟩ : SCtx).set n (some {}) :: cV :: abs s := by
+    rw [habs]; simp [SSet.step, SSet.getOrNew, lower, Context.isRegular]
+  refine ⟨?_, ?_⟩
+  · rw [get_abs h1.2.2, h1.1, hstep]; simp [lookup, SCtx.set]
+  · have h2 := step_abs h1.2.2 .pop
+    have h3 := step_abs hN .pop
+    rw [get_abs h2.2.2, h2.1, h1.1, hstep, get_abs h3.2.2, h3.1, habs]
+    rfl
+
 /-! ### built-in level clauses (the three seeded regressions of the evaluation rounds) -/
 
 /-- ★ `readonly_builtin_is_global`: `readonly NAME` / `readonly NAME=VALUE` executed in a function
@@ -448,6 +594,11 @@ example : (lt0.run (functionCmd [("x", .scalar "T")] ["a"]
     [.assign "y" .loc (.scalar "5") none, .setParams ["b", "c"]])).get "y" = none := by decide
 example : (lt0.run (functionCmd [("x", .scalar "T")] ["a"] [.assign "x" .global (.scalar "3") none])).get "x"
     = some { value := some (.scalar "3"), exported := true } := by decide
+
+example : ((lt0.run (enterFunction [("x", .scalar "T")] ["a"])).step (.getOrNew "x" .loc)).1.get "x" = some {} := by
+  decide
+example : (((lt0.run (enterFunction [("x", .scalar "T")] ["a"])).step (.getOrNew "x" .loc)).1.step .pop).1.get "x"
+    = some { value := some (.scalar "T"), exported := true } := by decide
 
 /-- non-vacuity of the built-in level clauses: `f() { readonly x; }`, `f() { unset x; }` and a
     temporary `x=T` seen from inside `f` -/
